@@ -109,6 +109,9 @@ type Aff struct {
 	// range affects exactly X and changes no verdict; it only gives the library's event sort
 	// something to do (OSV prescribes no event order).
 	Range []string `json:"range,omitempty"`
+	// Severity of this affected[] entry ("", "high", "low"); used by the library only when the
+	// record has no top-level severity.
+	Severity string `json:"severity,omitempty"`
 }
 
 // VulnSpec is one record of the simulated vulnerability database.
@@ -300,14 +303,24 @@ const (
 	cvssLow  = "CVSS:3.1/AV:L/AC:H/PR:H/UI:R/S:U/C:L/I:N/A:N" // 1.8
 )
 
-func (w *World) osv() []*osvschema.Vulnerability {
+// osv builds the OSV records; salt is appended to every id and alias (see RunSpec.Salt).
+func (w *World) osv(salt string) []*osvschema.Vulnerability {
 	var out []*osvschema.Vulnerability
 	for _, v := range w.Vulns {
-		o := &osvschema.Vulnerability{ID: v.ID, Aliases: append([]string(nil), v.Aliases...)}
+		o := &osvschema.Vulnerability{ID: v.ID + salt}
+		for _, a := range v.Aliases {
+			o.Aliases = append(o.Aliases, a+salt)
+		}
 		for _, a := range v.Affected {
 			oa := osvschema.Affected{
 				Package:  osvschema.Package{Ecosystem: w.ecosystem(), Name: a.Pkg},
 				Versions: append([]string(nil), a.Versions...),
+			}
+			switch a.Severity {
+			case "high":
+				oa.Severity = []osvschema.Severity{{Type: osvschema.SeverityCVSSV3, Score: cvssHigh}}
+			case "low":
+				oa.Severity = []osvschema.Severity{{Type: osvschema.SeverityCVSSV3, Score: cvssLow}}
 			}
 			if len(a.Range) == 2 {
 				oa.Ranges = []osvschema.Range{{Type: osvschema.RangeEcosystem, Events: []osvschema.Event{{Fixed: a.Range[0]}, {Introduced: a.Range[1]}}}}
@@ -551,7 +564,7 @@ func (w *World) describe() string {
 			if len(a.Range) == 2 {
 				r = "+range[fixed " + a.Range[0] + ", introduced " + a.Range[1] + "]"
 			}
-			as = append(as, a.Pkg+"@{"+strings.Join(a.Versions, ",")+"}"+r)
+			as = append(as, a.Pkg+"@{"+strings.Join(a.Versions, ",")+"}"+sevStr(a.Severity)+r)
 		}
 		al := ""
 		if len(v.Aliases) > 0 {
